@@ -60,6 +60,16 @@ Qed.
 Lemma factory_total : forall code, factory code = format code.
 Proof. intros code. apply opt_z_eqb_eq. apply factory_total_b. Qed.
 
+(* ---- ... and both are the format's own assignment as pinned in /verif (translator/format_codes.json), not merely each other:
+   every pinned code yields exactly the pinned class, and a class the format knows is created under no other code ---- *)
+Definition pinned (code : Z) : option Z := no_zero (lookup code pinned_format).
+Definition pinned_ok : bool :=
+  forallb (fun p => opt_z_eqb (factory (fst p)) (pinned (fst p))) pinned_format &&
+  forallb (fun p => (snd p =? 0) || negb (existsb (fun q => snd q =? snd p) pinned_format) ||
+                    existsb (fun q => (fst q =? fst p) && (snd q =? snd p)) pinned_format) factory_table.
+Lemma factory_is_pinned_format : pinned_ok = true.
+Proof. vm_compute. reflexivity. Qed.
+
 Lemma factory_recognised_ok : factory_recognised = true.
 Proof. reflexivity. Qed.
 
